@@ -220,9 +220,13 @@ loop:
 	}
 
 	// Build and return the index
+	var digestFlag uint64
+	if Digest.Algorithm() == crypto.SHA512_256 {
+		digestFlag = CaFormatSHA512256
+	}
 	index := Index{
 		Index: FormatIndex{
-			FeatureFlags: CaFormatExcludeNoDump | CaFormatSHA512256,
+			FeatureFlags: CaFormatExcludeNoDump | digestFlag,
 			ChunkSizeMin: c.Min(),
 			ChunkSizeAvg: c.Avg(),
 			ChunkSizeMax: c.Max(),
